@@ -23,7 +23,7 @@ RULE = (
     "recogniser with three values (in language -> table meaning must be returned; out of language "
     "-> ValueError; ambiguous, e.g. undocumented mission name or year outside 2014-2049 -> no "
     "claim); a sample of product ids is opened as real products through open_alos2 (quick 40, "
-    "thorough 900; a quarter of them once more with the lines of summary.txt in another order - identifier lines first, sorted, reversed), and products whose summary carries a product / scene id outside the language (level 1.6, month 13; in the usual and in the three other line orders) must fail to open with ValueError. Non-trivial: every string (each is a distinct identifier); distinct = the string."
+    "thorough 900; a quarter of them once more with the lines of summary.txt in another order - identifier lines first, sorted, reversed), and products whose summary carries a product / scene id outside the language (level 1.6, month 13, or both at once; in the usual and in the three other line orders) must fail to open with ValueError. Non-trivial: every string (each is a distinct identifier); distinct = the string."
 )
 ASSUMPTIONS = [
     "the code tables in this file are the documented ones (decoders.py docstrings / JAXA format description)",
@@ -356,12 +356,15 @@ def check_open(case):
     if case.get("bad_id"):
         # an identifier outside the language in the summary: the open must fail with ValueError
         text = files["summary.txt"].decode("ascii")
-        if case["bad_id"] == "product":
+        bad = ""
+        if case["bad_id"] in ("product", "both"):
             bad = pid[:4] + "1.6" + pid[7:]
             text = text.replace(f'Pds_ProductID="{pid}"', f'Pds_ProductID="{bad}"')
-        else:
-            bad = spec["scene_id"][:-4] + "1332"
-            text = text.replace(f'Scs_SceneID="{spec["scene_id"]}"', f'Scs_SceneID="{bad}"')
+        if case["bad_id"] in ("scene", "both"):
+            # (both: two sections of the summary hold an identifier outside the language at once)
+            bad_scene = spec["scene_id"][:-4] + "1332"
+            text = text.replace(f'Scs_SceneID="{spec["scene_id"]}"', f'Scs_SceneID="{bad_scene}"')
+            bad = (bad + " + " if bad else "") + bad_scene
         files["summary.txt"] = text.encode("ascii")
         with harness.Materialised(files, "memory") as prod:
             tree, err = harness.guard(harness.open_tree, prod.url, use_cache=False)
@@ -440,7 +443,7 @@ def enum_cases(tier):
         yield {"kind": "open", "index": idx, "scan": scan}
         if i % 4 == 0:
             yield {"kind": "open", "index": idx, "scan": scan, "order": ["ids-first", "sorted", "reversed"][(i // 4) % 3]}
-    for j, (what, order) in enumerate(itertools.product(["product", "scene"], [None, "ids-first", "sorted", "reversed"])):
+    for j, (what, order) in enumerate(itertools.product(["product", "scene", "both"], [None, "ids-first", "sorted", "reversed"])):
         case = {"kind": "open", "index": rng.randrange(3600), "scan": None, "bad_id": what}
         if order:
             case["order"] = order
